@@ -16,11 +16,13 @@ RULE = ('seeded random C and C++ projects (vf/gen/c07gen.py: 3-10 translation un
         'opts.include_dir/raw -I/global_options, never listed individually; header and '
         'include-directory names plain or with spaces and Make-special characters, each admitted '
         'per compiler and back end by calibration against a hand-written Makefile/build.ninja that '
-        'consumes the compiler\'s raw -MMD output) built by the real gcc/g++ (clang/clang++ in '
+        'consumes the compiler\'s raw -MMD output - one name at a time, then all names of a history '
+        'together in both orders) built by the real gcc/g++ (clang/clang++ in '
         'thorough) through recording wrappers, under histories of 6-12 edits (modify header/'
         'source, add header + #include, remove #include then delete, delete in one step, rename '
         'header with includers updated, move header between include dirs, no-op, clean, add/'
-        'rename/delete source with build.bfg edited) each followed by a build; '
+        'rename/delete source with build.bfg edited) each followed by a build, a run of the '
+        'program and a look at the wrappers\' log; '
         'distinct = (backend, compiler, language, include mode, edit kind, special characters of '
         'the edited name, size class of the must-recompile set); non-trivial = every step except '
         'a plain source modification')
@@ -31,7 +33,9 @@ ASSUMPTIONS = [
     'command only (configure-time probes are not in the window)',
     'a header or include-directory name is only demanded of bfg9000 if a hand-written build file '
     'using the same compiler\'s raw -MMD output handles it (rebuild on touch, quiet no-op) and, '
-    'for Make, some textbook escaping of an empty rule for it survives the deletion of the header',
+    'for Make, a hand-spelt empty rule for it (raw, backslash-escaped or through a variable, '
+    'per character) survives the deletion of the header; the names of one history must also '
+    'pass together',
     'timestamp discipline of DESIGN.md Appendix C.2 (kernel clock only, strictly newer, verified)',
     'Ninja half executed by vf/ref/refninja.py (deps=gcc, deps log, -t clean, regeneration)',
 ]
@@ -112,112 +116,145 @@ def _esc_target(path, style):
     return ''.join(out), ''.join(defs)
 
 
+def _styles_for(compiler, lang, text):
+    """Per character of `text`: the first spelling with which GNU make accepts an empty rule
+    for a name holding that character (decided once, on the name n<c>m.h).
+    -> {char: style} or None if some character has no working spelling."""
+    style = {}
+    for c in sorted({c for c in text if c in MAKE_ESCAPABLE}):
+        k = (compiler, lang, 'style', c)
+        with _calib_lock:
+            known = k in _calib
+        if not known:
+            found = None
+            for sty in ESC_STYLES:
+                ok, why = _calibrate(compiler, lang, 'make', [('inc', 'n%sm.h' % c)], {c: sty})
+                if ok:
+                    found = sty
+                    break
+                if 'deletion' not in why:
+                    break       # the compiler's own output is the limit, not the rule
+            with _calib_lock:
+                _calib[k] = found
+        style[c] = _calib[k]
+    return style if all(style.values()) else None
+
+
 def calibrate(compiler, lang, backend, incdir, relpath):
-    """-> (admitted, reason).  Reference build of one TU including one header, with
-    hand-written build files fed by the compiler's own -MMD output."""
-    key = (compiler, lang, backend, incdir, relpath)
+    """-> (admitted, reason) for one header name."""
+    return calibrate_set(compiler, lang, backend, [(incdir, relpath)])
+
+
+def calibrate_set(compiler, lang, backend, pairs):
+    """-> (admitted, reason).  Reference build of one TU including all the given headers
+    ((include dir, path below it) pairs, in this order), with hand-written build files fed
+    by the compiler's own -MMD output."""
+    key = (compiler, lang, backend, tuple(pairs))
     with _calib_lock:
         if key in _calib:
             return _calib[key]
-    styles = None
+    style = {}
     if backend == 'make':
-        # per character: the first spelling with which GNU make accepts an empty rule for a
-        # name holding that character (decided once on the name n<c>m.h)
-        style = {}
-        for c in sorted({c for c in incdir + '/' + relpath if c in MAKE_ESCAPABLE}):
-            k = (compiler, lang, 'style', c)
-            with _calib_lock:
-                known = k in _calib
-            if not known:
-                found = None
-                for sty in ESC_STYLES:
-                    ok, why = _calibrate(compiler, lang, backend, 'inc', 'n%sm.h' % c,
-                                         [{c: sty}])
-                    if ok:
-                        found = sty
-                        break
-                    if 'deletion' not in why:
-                        break       # the compiler's own output is the limit, not the rule
-                with _calib_lock:
-                    _calib[k] = found
-            style[c] = _calib[k]
-        styles = [style] if all(style.values()) else []
-    out = _calibrate(compiler, lang, backend, incdir, relpath, styles)
+        style = _styles_for(compiler, lang, ''.join(d + '/' + n for d, n in pairs))
+    if style is None:
+        out = (False, 'reference build cannot survive the deletion')
+    else:
+        out = _calibrate(compiler, lang, backend, pairs, style)
     with _calib_lock:
         _calib[key] = out
     return out
 
 
-def _calibrate(compiler, lang, backend, incdir, relpath, styles):
+def _calibrate(compiler, lang, backend, pairs, style):
     root = core.mkscratch('c07cal')
     try:
         src, bld = os.path.join(root, 'src'), os.path.join(root, 'bld')
-        hdr = os.path.join(src, incdir, relpath)
+        hdrs = [os.path.join(src, d, n) for d, n in pairs]
+        dirs = []
+        for d, n in pairs:
+            if d not in dirs:
+                dirs.append(d)
         tu = os.path.join(src, 't.c' if lang == 'c' else 't.cpp')
-        with_inc = '#include "%s"\nint v = H;\n' % relpath
-        without = 'int v = 1;\n'
+
+        def tu_text(k):
+            return ''.join('#include "%s"\nint v%d = H%d;\n' % (n, i, i)
+                           for i, (d, n) in enumerate(pairs[:k]))  + 'int w = 1;\n'
         try:
-            proj.write_tree(src, {incdir + '/' + relpath: '#define H 1\n'})
-            proj.write_tree(src, {os.path.basename(tu): with_inc})
+            for i, (d, n) in enumerate(pairs):
+                proj.write_tree(src, {d + '/' + n: '#define H%d 1\n' % i})
+            proj.write_tree(src, {os.path.basename(tu): tu_text(len(pairs))})
         except OSError:
             return False, 'file system refuses the name'
         os.makedirs(bld)
-        env = core.base_env({'C07_INC': os.path.join(src, incdir), 'C07_SRC': tu,
-                             'C07_CC': cc_for(compiler, lang, wrap=False)})
+        extra = {'C07_SRC': tu, 'C07_CC': cc_for(compiler, lang, wrap=False)}
+        for i, d in enumerate(dirs):
+            extra['C07_INC%d' % i] = os.path.join(src, d)
+        env = core.base_env(extra)
         obj = os.path.join(bld, 't.o')
         if backend == 'make':
+            incs = ' '.join('-I "$$C07_INC%d"' % i for i in range(len(dirs)))
             base = ('all: t.o\n'
                     't.o: $(C07_SRC)\n'
-                    '\t"$$C07_CC" -I "$$C07_INC" -c "$$C07_SRC" -MMD -MF t.o.d -o t.o\n'
-                    '-include t.o.d\n')
+                    '\t"$$C07_CC" %s -c "$$C07_SRC" -MMD -MF t.o.d -o t.o\n'
+                    '-include t.o.d\n' % incs)
             argv = ['make', '--no-print-directory']
         else:
+            incs = ' '.join('-I "$$C07_INC%d"' % i for i in range(len(dirs)))
             base = ('rule cc\n'
-                    '  command = "$$C07_CC" -I "$$C07_INC" -c "$$C07_SRC" -MMD -MF $out.d -o $out\n'
+                    '  command = "$$C07_CC" %s -c "$$C07_SRC" -MMD -MF $out.d -o $out\n'
                     '  depfile = $out.d\n'
                     '  deps = gcc\n'
                     'build t.o: cc %s\n'
-                    'default t.o\n' % tu.replace('$', '$$').replace(' ', '$ ').replace(':', '$:'))
+                    'default t.o\n' % (incs, tu.replace('$', '$$').replace(' ', '$ ')
+                                        .replace(':', '$:')))
             argv = [os.path.join(core.BIN, 'ninja')]
-            styles = [None]
         bf = os.path.join(bld, proj.buildfile(backend))
 
         def build():
             rc, o = core.run(argv, cwd=bld, env=env, timeout=120)
             return rc
 
+        def quiet():
+            m = _mtime(obj)
+            proj.settle()
+            return build() == 0 and _mtime(obj) == m
+
+        def rebuilds():
+            m = _mtime(obj)
+            return build() == 0 and _mtime(obj) not in (None, m)
+
         with open(bf, 'w') as f:
             f.write(base)
         proj.settle()
         if build() != 0 or _mtime(obj) is None:
             return False, 'compiler or tool cannot build with it'
-        m1 = _mtime(obj)
-        proj.settle()
-        if build() != 0 or _mtime(obj) != m1:
+        if not quiet():
             return False, 'reference build is not quiet on a no-op'
-        proj.bump(hdr, bld, src)
-        if build() != 0 or _mtime(obj) == m1:
-            return False, 'reference build does not notice a touch'
-        m2 = _mtime(obj)
-        proj.settle()
-        if build() != 0 or _mtime(obj) != m2:
+        for h in hdrs:
+            proj.bump(h, bld, src)
+            if not rebuilds():
+                return False, 'reference build does not notice a touch'
+        if not quiet():
             return False, 'reference build is not quiet after the rebuild'
-        # deletion of the no longer included header: does the tool have a way to say
+        # deletion of a no longer included header: does the tool have a way to say
         # "this file may vanish"?  (Make: an empty rule, spelt by hand; Ninja: its deps log)
-        for sty in styles:
-            if sty is not None:
-                text, defs = _esc_target(hdr, sty)
-                with open(bf, 'w') as f:
-                    f.write(defs + base + text + ':\n')
-                if build() != 0 or _mtime(obj) != m2:
-                    continue        # this spelling disturbs the no-op
-            proj.write_tree(src, {os.path.basename(tu): without})
-            os.remove(hdr)
-            proj.bump(tu, bld, src)
-            if build() == 0 and _mtime(obj) != m2:
-                return True, ''
-            break       # the tree is spent; at most one spelling per reference project
-        return False, 'reference build cannot survive the deletion'
+        if backend == 'make':
+            rules, defs = [], []
+            for h in hdrs:
+                text, d = _esc_target(h, style)
+                rules.append(text + ':\n')
+                if d not in defs:
+                    defs.append(d)
+            with open(bf, 'w') as f:
+                f.write(''.join(defs) + base + ''.join(rules))
+            if not quiet():
+                return False, 'reference build cannot survive the deletion'
+        proj.write_tree(src, {os.path.basename(tu): tu_text(len(pairs) - 1)})
+        os.remove(hdrs[-1])
+        proj.bump(tu, bld, src)
+        if not rebuilds() or not quiet():
+            return False, 'reference build cannot survive the deletion'
+        return True, ''
     finally:
         core.rmtree(root)
 
@@ -248,27 +285,31 @@ def cases(tier, seed):
 # --------------------------------------------------------------------------
 # name admission
 
-def resolve(case, res):
-    """Replace names the tool chain itself cannot handle by their plain fallbacks.
-    -> (state, history) ready to run."""
+def _pass(case, res, banned, count):
     compiler, backend = case['compiler'], case['backend']
     st = copy.deepcopy(case['state'])
     lang = st['lang']
+    used = []       # admitted (incdir, relpath) pairs with special characters
 
-    def admitted(incdir, relpath):
-        if not g.name_chars(incdir + '/' + relpath) and ' ' not in relpath:
+    def admitted(incdir, relpath, record=True):
+        if not g.name_chars(incdir + '/' + relpath):
             return True
+        if (incdir, relpath) in banned:
+            return False
         # digits are alike for every tool involved: one calibration per name shape
         ok, why = calibrate(compiler, lang, backend, incdir, re.sub(r'[0-9]+', '0', relpath))
-        res.ev('calibration:admitted' if ok else 'calibration:excluded')
-        if not ok:
-            res.exclude('%s/%s: %s: %s' % (compiler, backend, why,
-                                           g.name_chars(incdir + '/' + relpath) or 'space'))
+        if count:
+            res.ev('calibration:admitted' if ok else 'calibration:excluded')
+            if not ok:
+                res.exclude('%s/%s: %s: %s' % (compiler, backend, why,
+                                               g.name_chars(incdir + '/' + relpath)))
+        if ok and record and (incdir, relpath) not in used:
+            used.append((incdir, relpath))
         return ok
 
     plain_dirs = st.get('incdirs_plain') or ['inc', 'inc2']
     for i, d in enumerate(st['incdirs']):
-        if not admitted(d, 'p.h'):
+        if not admitted(d, 'p.h', record=False) or (d, None) in banned:
             st['incdirs'][i] = plain_dirs[i]
     for hid, h in st['headers'].items():
         if not admitted(st['incdirs'][h['dir']], h['name']):
@@ -290,6 +331,37 @@ def resolve(case, res):
         except (ValueError, KeyError):
             continue     # a replay file edited by hand; skip what does not apply
         hist.append(op)
+    # headers with plain names in a special include directory
+    for d in st['incdirs']:
+        if g.name_chars(d) and not any(x == d for x, n in used):
+            used.append((d, 'p.h'))
+    return st, hist, used
+
+
+def resolve(case, res):
+    """Replace names the tool chain itself cannot handle by their plain fallbacks: first
+    name by name, then all names of the history together (both orders: GNU make reads
+    `a( b)` in a prerequisite list as archive members, for example).
+    -> (state, history) ready to run."""
+    compiler, backend = case['compiler'], case['backend']
+    banned = set()
+    st, hist, used = _pass(case, res, banned, True)
+    while len(used) > 1:
+        norm = [(d, re.sub(r'[0-9]+', str(i), n)) for i, (d, n) in enumerate(used)]
+        ok, why = calibrate_set(compiler, st['lang'], backend, norm)
+        if ok:
+            ok, why = calibrate_set(compiler, st['lang'], backend, norm[::-1])
+        res.ev('calibration:joint-admitted' if ok else 'calibration:joint-excluded')
+        if ok:
+            break
+        # drop one name (parentheses first: they pair up across names) and try again
+        victim = next((p for p in used if '(' in p[0] + p[1] or ')' in p[0] + p[1]), used[-1])
+        res.exclude('%s/%s: names together: %s: %s' % (
+            compiler, backend, why, g.name_chars(victim[0] + '/' + victim[1])))
+        banned.add(victim)
+        if victim[1] == 'p.h':
+            banned.add((victim[0], None))
+        st, hist, used = _pass(case, res, banned, False)
     return st, hist
 
 
@@ -371,6 +443,49 @@ def fail_reason(out):
     return 'other'
 
 
+def syntax_culprit(bld, out, root):
+    """For a Make parse error inside an included depfile: the offending line and the
+    smallest set of special characters with which GNU make still rejects it.
+    -> (line with the scratch prefix removed, chars) or None"""
+    m = re.search(r'^(?:make[^:]*: )?([^\n]*?\.d):(\d+): \*\*\* ', out or '', re.M)
+    if not m:
+        return None
+    try:
+        with open(os.path.join(bld, m.group(1)), encoding='utf-8', errors='replace') as f:
+            line = f.read().split('\n')[int(m.group(2)) - 1]
+    except (OSError, IndexError):
+        return None
+    line = line.replace(os.path.join(root, 'src'), '/S')
+    body = line[:-1] if line.endswith(':') else line
+    chars = [c for c in sorted(set(body)) if c in g.SPECIALS and c not in '-']
+    d = core.mkscratch('c07syn')
+
+    def rejected(text):
+        with open(os.path.join(d, 'Makefile'), 'w') as f:
+            f.write('all:\n\t@true\n' + text + ':\n')
+        rc, o = core.run(['make', '--no-print-directory', '-n'], cwd=d, env=core.base_env(),
+                         timeout=60)
+        return rc != 0
+
+    def without(text, c):
+        return text.replace('\\' + c, 'x').replace('$$', 'x').replace(c, 'x') if c == '$' \
+            else text.replace('\\' + c, 'x').replace(c, 'x')
+    try:
+        if not rejected(body):
+            return line, ''.join(chars)
+        cur = body
+        keep = []
+        for c in chars:
+            t = without(cur, c)
+            if rejected(t):
+                cur = t         # still rejected without c: c does not matter
+            else:
+                keep.append(c)
+        return line, ''.join(keep)
+    finally:
+        core.rmtree(d)
+
+
 class Stop(Exception):
     pass
 
@@ -401,13 +516,22 @@ def run_history(case, st, hist, res, count=True, keep_going=False):
              if g.name_chars(g.hdr_path(ctx['state'], h))]
         chars = ''.join(sorted(set(''.join(g.name_chars(n) for n in names))))
         if 'output' in kw:      # scratch paths vary from run to run
+            kw['raw_output'] = kw['output']
             kw['output'] = kw['output'].replace(root, '<scratch>')
         wit = dict(kw, backend=backend, compiler=compiler, lang=lang, incmode=st['incmode'],
                    step=step, kind=kind, what=what, edited=edited or '',
                    name_chars=chars, special_names=names,
                    __case__=dict(case, history=list(done)))
         what2 = what + ('/' + kw['reason'] if kw.get('reason') else '')
-        res.violate((backend, KIND_CLASS.get(kind, kind), what2, 'chars:' + chars), wit)
+        kc = KIND_CLASS.get(kind, kind)
+        if kw.get('reason') == 'makefile-syntax' and step > 0:
+            # the build file no longer parses: whatever was edited, every later build fails
+            sc = syntax_culprit(bld, kw.get('raw_output'), root)
+            if sc:
+                kc = 'any-rebuild'
+                wit['offending_line'], wit['offending_chars'] = sc
+        wit.pop('raw_output', None)
+        res.violate((backend, kc, what2, 'chars:' + chars), wit)
         if (KEEP_GOING or keep_going) and step > 0:
             raise StepFailed()
         raise Stop()
@@ -428,15 +552,44 @@ def run_history(case, st, hist, res, count=True, keep_going=False):
         rc, out = core.run([exe], cwd=bld, env=env, timeout=60)
         return rc, out
 
+    def stale_archive_members(cur):
+        """Members of the static libraries built here that are not objects of a current
+        translation unit (ar t vs. the objects the compile records produced)."""
+        current = {os.path.basename(p) for p, (k, t) in products.items()
+                   if k == 'object' and t in cur['tus']}
+        stale = []
+        for p, (k, t) in products.items():
+            if k == 'archive' and os.path.isfile(p):
+                rc, out = core.run(['ar', 't', p], cwd=bld, env=env, timeout=60)
+                if rc == 0:
+                    stale.extend(m for m in out.split() if m not in current)
+        return stale
+
     def check_output(step, kind, cur, edited):
         rc, out = run_prog(cur)
         exp = g.expected_lines(cur)
         ev('obligations:output-lines', len(exp))
         if rc != 0 or out.splitlines() != exp:
             got = out.splitlines() if rc is not None else []
-            stale = sorted(set(exp) - set(got))
+            wrong = sorted(set(exp) - set(got))
+            wrong_tus = [l.split('=')[0][1:] for l in wrong]
+            stale = stale_archive_members(cur)
+            if stale and all(cur['tus'].get(t, {}).get('lib') for t in wrong_tus):
+                # not the dependency tracking: the archive still holds the object of a
+                # source file that was renamed/removed, and the linker picks it
+                renamed = any(o['op'] == 'rename_source' and o['t'] in wrong_tus for o in done)
+                res.violate(('any-backend', 'static-library', 'stale-output/archive-keeps-old-member',
+                             'source-renamed' if renamed else 'source-removed'),
+                            dict(backend=backend, compiler=compiler, lang=lang, step=step,
+                                 kind=kind, what='stale-output', stale_members=stale,
+                                 wrong_lines=wrong[:10], expected=exp, got=got[:40],
+                                 edited=edited or '', special_names=[], no_probe=True,
+                                 __case__=dict(case, history=list(done))))
+                if (KEEP_GOING or keep_going) and step > 0:
+                    raise StepFailed()
+                raise Stop()
             fail(step, kind, 'stale-output', edited, program_rc=rc, expected=exp, got=got[:40],
-                 wrong_lines=stale[:10])
+                 wrong_lines=wrong[:10])
 
     try:
         files = g.render(st)
@@ -658,8 +811,14 @@ def run_case(case):
         c = wit.get('__case__')
         if c is not None:
             c['state'] = st     # the replay case carries the resolved names
-        trigs = triggers(case['backend'], case['compiler'], st['lang'], wit['special_names'],
-                         (mech[1], mech[2]))
+        if wit.pop('no_probe', False):
+            fixed.append((mech, wit))
+            continue
+        if 'offending_chars' in wit:
+            trigs = [('combination:' + wit['offending_chars'], None)]
+        else:
+            trigs = triggers(case['backend'], case['compiler'], st['lang'],
+                             wit['special_names'], (mech[1], mech[2]))
         for t, small in trigs:
             # the tiny probe project that shows the same failure is the better witness
             w = dict(small) if small is not None and case.get('index') != -1 else dict(wit)
